@@ -9,7 +9,7 @@ META = dict(
     explanation='nlist.pyx (re-translated from source; its bin/ghost/half-stencil sweep executed on symbolic atom coordinates) and NeighborList are executed for 2-3 atoms in a table of concrete (cell, cutoff, periodicity) entries. Bin indices, ghost membership and the cutoff test fork, so the solver derives the partition of configuration space that the code\'s own branching induces and decides the list on each whole region against the C02 periodic distance (dmag2_c executed symbolically).',
     functions=['atomman/core/nlist.pyx:nlist,unique_rows2', 'atomman/core/dmag.pyx:dmag2_c', 'atomman/core/NeighborList.py:NeighborList.__init__/build/__getitem__/coord/dump/load',
                'atomman/core/System.py:System.__init__', 'atomman/core/Atoms.py:Atoms.__init__'],
-    bounds=dict(quick='N=2 atoms, two relative coordinates of both atoms symbolic (the third fixed), 10 table entries (orthogonal/tilted, origin, cutoff below/near/above the cell widths, pbc TTF/TFF/FFF), configuration space cut into axis-aligned sub-boxes; quick explores the face-adjacent sub-boxes within a time budget per sub-box (unexplored regions are counted and reported)',
+    bounds=dict(quick='N=2 atoms, two relative coordinates of both atoms symbolic (the third fixed), 12 table entries (orthogonal/tilted, unequal bin counts per direction, origin, cutoff below/near/above the cell widths, pbc TTF/TFF/FFF), configuration space cut into axis-aligned sub-boxes; quick explores the face-adjacent sub-boxes within a time budget per sub-box (unexplored regions are counted and reported)',
                 thorough='the whole cell of every entry as 16 sub-boxes (2x2 per atom) with 300 s per sub-box (unfinished work-lists are reported as remaining); N=3 for two entries incl. storage sizes (1,1),(2,1)'),
     outside=['N > 3 atoms', 'more than 40 atoms per bin (bin growth) and neighbour-row growth beyond the translator-validation replay', 'IEEE-754 rounding at bin edges (np.arange/digitize are executed on exact reals)'],
     lemmas=[], cuts=[],
@@ -32,6 +32,9 @@ ENTRIES = {
     'E8': (dict(lx=2.2, ly=1.8, lz=2.0, yz=0.4), 0.65, (False, True, True), (1.0, 1.3), 'yz'),
     'E9': (dict(lx=2.0, ly=2.0, lz=1.7, origin=[-0.5, 0.2, 0.3]), 0.7, (False, False, True), (0.9, 1.1), 'xz'),
     'E10': (dict(lx=1.9, ly=1.8, lz=2.0), 0.6, (True, True, True), (0.9, 1.0), 'yz'),
+    # more bins along b than along a, and along c than along b (the bin counts of the three directions must not be interchangeable)
+    'E11': (dict(lx=1.4, ly=3.1, lz=3.0), 0.65, (True, True, False), (1.5, 1.5)),
+    'E12': (dict(lx=3.2, ly=1.5, lz=4.4), 0.7, (False, True, True), (1.0, 1.3), 'yz'),
 }
 
 
@@ -160,6 +163,9 @@ def cases(tier, seed=0):
         add('E8', {'s0x': (0.0, 0.3), 's0y': (0.0, 0.25), 's1x': (0.7, 1.0), 's1y': (0.75, 1.0)}, 'corner')
         add('E9', {'s0x': (0.3, 0.7), 's0y': (0.0, 0.25), 's1x': (0.3, 0.7), 's1y': (0.75, 1.0)}, 'cfaces')
         add('E10', {'s0x': (0.0, 0.25), 's0y': (0.0, 0.25), 's1x': (0.75, 1.0), 's1y': (0.75, 1.0)}, 'corner')
+        add('E11', {'s0x': (0.2, 0.8), 's0y': (0.35, 0.75), 's1x': (0.2, 0.8), 's1y': (0.35, 0.75)}, 'ylayers')
+        add('E11', {'s0x': (0.2, 0.8), 's0y': (0.6, 1.0), 's1x': (0.2, 0.8), 's1y': (0.6, 1.0)}, 'ytop')
+        add('E12', {'s0x': (0.2, 0.8), 's0y': (0.3, 0.7), 's1x': (0.2, 0.8), 's1y': (0.3, 0.7)}, 'zlayers')
         rng = np.random.default_rng(seed + 7)
         for k in range(4):
             e = ['E1', 'E2', 'E3', 'E5'][k]
